@@ -22,8 +22,8 @@ import (
 func init() {
 	core.Register(&core.Check{
 		ID:         "C42",
-		Rule:       "cases: (a) every identifier string [A-Za-z_][A-Za-z0-9_]* of length <= 3 (quick) / <= 4 (thorough) and PRNG longer identifiers (also dotted, as used for nested names): GoCamelCase yields an exported Go identifier; (b) GoSanitized on every string of length <= 3 (<= 4) over a 24-character alphabet incl. punctuation, digits, non-ASCII letters, marks and Go keywords, and on PRNG Unicode strings: a valid non-keyword Go identifier; (c) the same identifier strings as FieldMask paths: whenever protojson marshals the path, JSONSnakeCase(JSONCamelCase(s)) == s; (d) protogen name derivation in-process (protogen.Options.New on generated CodeGeneratorRequests, open and opaque API level): messages whose field and oneof names are drawn from a collision-seeking pool (foo / get_foo / Foo / foo_ / _foo / reset / string / descriptor / build / has_x / set_x / clear_x / which_x, oneofs named like camel-cased fields): all struct member names, getter/setter/has/clear/which method names, oneof wrapper, nested-type, enum and enum-value identifiers are valid exported identifiers and pairwise distinct where Go requires it; distinct = distinct strings / field-name sets; non-trivial = string of length >= 2",
-		Assume:     []string{"go/token.IsIdentifier, token.IsExported, token.Lookup", "the naming scheme of generated code transcribed in checks/c42.go (struct members, GetX/SetX/HasX/ClearX/WhichX, Msg_Field wrapper types)"},
+		Rule:       "cases: (a) every identifier string [A-Za-z_][A-Za-z0-9_]* of length <= 3 (quick) / <= 4 (thorough) and PRNG longer identifiers (also dotted, as used for nested names): GoCamelCase yields an exported Go identifier; (b) GoSanitized on every string of length <= 3 (<= 4) over a 24-character alphabet incl. punctuation, digits, non-ASCII letters, marks and Go keywords, and on PRNG Unicode strings: a valid non-keyword Go identifier; (c) the same identifier strings as FieldMask paths: whenever protojson marshals the path, JSONSnakeCase(JSONCamelCase(s)) == s; (d) protogen name derivation in-process (protogen.Options.New on generated CodeGeneratorRequests, open and opaque API level): messages whose field and oneof names are drawn from a collision-seeking pool (foo / get_foo / Foo / foo_ / _foo / reset / string / descriptor / build / has_x / set_x / clear_x / which_x, oneofs named like camel-cased fields): all struct member names, getter/setter/has/clear/which method names, oneof wrapper, nested-type, enum and enum-value identifiers are valid exported identifiers and pairwise distinct where Go requires it; (e) the same schemas (those protoc would accept: no default-JSON-name conflict outside proto2) and five fixed witness schemas through the generator itself in-process (protogen + internal_gengo) at the hybrid and opaque API levels, each generated file parsed and type-checked with go/types against the export data of the repository's packages: no type error; a clash is explained by a recorded cause only when protogen's public naming API shows it (see known_findings.json), anything else is minimised (greedy removal of messages, fields, oneofs) and reported; distinct = distinct strings / field-name sets; non-trivial = string of length >= 2",
+		Assume:     []string{"go/token.IsIdentifier, token.IsExported, token.Lookup", "the naming scheme of generated code transcribed in checks/c42.go (struct members, GetX/SetX/HasX/ClearX/WhichX, Msg_Field wrapper types)", "go/types and the export data written by go list -export as judge of (e)"},
 		Exhaustive: func(tier string) bool { return false },
 		Batches: func(tier string) []core.Batch {
 			var bs []core.Batch
@@ -36,7 +36,7 @@ func init() {
 			return bs
 		},
 		Gates: func(tier string) map[string]int64 {
-			return map[string]int64{"camelcase": 100000, "sanitized": 10000, "fieldmask_paths": 100000, "fieldmask_accepted": 5000, "protogen_messages": 3000, "protogen_fields": 20000, "protogen_opaque_messages": 1000, "protogen_renamed": 300, "protogen_oneofs": 1000}
+			return map[string]int64{"camelcase": 100000, "sanitized": 10000, "fieldmask_paths": 100000, "fieldmask_accepted": 5000, "protogen_messages": 3000, "protogen_fields": 20000, "protogen_opaque_messages": 1000, "protogen_renamed": 300, "protogen_oneofs": 1000, "typechecked_files:hybrid": 500, "typechecked_files:opaque": 500, "typecheck_witness_schemas": 5}
 		},
 		Run: runC42,
 	})
@@ -221,6 +221,18 @@ var c42Pool = []string{"foo", "get_foo", "Foo", "foo_", "_foo", "getFoo", "GetFo
 
 // c42Names drives protogen in-process on messages whose names seek collisions.
 func c42Names(c *core.Ctx, b core.Batch) {
+	tc, err := newC42TC()
+	if err != nil {
+		c.Violation("harness:no-export-data-for-type-checking", map[string]any{"err": errStr(err)})
+		tc = nil
+	}
+	if tc != nil && b.N == 0 {
+		// one fixed witness per recorded cause, so that each is met at every seed
+		for wi, w := range [][]string{{"x@X"}, {"bar", "get_bar", "bar_"}, {"Foo", "get_foo", "state@foo_"}, {"getFoo", "descriptor@Foo"}, {"get_@_foo", "get@foo", "nested:Get"}} {
+			c42TypeCheck(c, tc, c42Witness(wi, w))
+			c.Count("typecheck_witness_schemas")
+		}
+	}
 	n := c.Scale(400, 8000)
 	for i := 0; i < n; i++ {
 		r := c.Rng(uint64(i))
@@ -301,6 +313,9 @@ func c42Names(c *core.Ctx, b core.Batch) {
 				m.EnumType = append(m.EnumType, &descriptorpb.EnumDescriptorProto{Name: proto.String("E" + fmt.Sprint(mi)), Value: []*descriptorpb.EnumValueDescriptorProto{{Name: proto.String("E" + fmt.Sprint(mi) + "_ZERO"), Number: proto.Int32(0)}, {Name: proto.String("FOO"), Number: proto.Int32(1)}}})
 			}
 			fdp.MessageType = append(fdp.MessageType, m)
+		}
+		if tc != nil {
+			c42TypeCheck(c, tc, fdp)
 		}
 		for _, level := range []string{"API_OPEN", "API_OPAQUE"} {
 			c.Eval()
@@ -415,4 +430,28 @@ func c42Names(c *core.Ctx, b core.Batch) {
 			c.DistinctStr(fdp.String() + level)
 		}
 	}
+}
+
+// c42Witness builds a proto2 file with one message from member names ("name" or "name@oneof").
+func c42Witness(i int, members []string) *descriptorpb.FileDescriptorProto {
+	m := &descriptorpb.DescriptorProto{Name: proto.String("W")}
+	oneofs := map[string]int32{}
+	for k, mem := range members {
+		if nn, ok := strings.CutPrefix(mem, "nested:"); ok {
+			m.NestedType = append(m.NestedType, &descriptorpb.DescriptorProto{Name: proto.String(nn)})
+			continue
+		}
+		name, oneof, in := strings.Cut(mem, "@")
+		f := &descriptorpb.FieldDescriptorProto{Name: proto.String(name), Number: proto.Int32(int32(k + 1)), Label: descriptorpb.FieldDescriptorProto_LABEL_OPTIONAL.Enum(), Type: descriptorpb.FieldDescriptorProto_TYPE_INT32.Enum(), JsonName: proto.String(fmt.Sprintf("j%d", k))}
+		if in {
+			if _, ok := oneofs[oneof]; !ok {
+				oneofs[oneof] = int32(len(m.OneofDecl))
+				m.OneofDecl = append(m.OneofDecl, &descriptorpb.OneofDescriptorProto{Name: proto.String(oneof)})
+			}
+			f.OneofIndex = proto.Int32(oneofs[oneof])
+		}
+		m.Field = append(m.Field, f)
+	}
+	return &descriptorpb.FileDescriptorProto{Name: proto.String(fmt.Sprintf("c42/witness%d.proto", i)), Package: proto.String("c42pkg"), Syntax: proto.String("proto2"),
+		Options: &descriptorpb.FileOptions{GoPackage: proto.String("example.com/c42/p")}, MessageType: []*descriptorpb.DescriptorProto{m}}
 }
